@@ -56,6 +56,12 @@ def broadcastShapes : List (List Nat) → Option (List Nat)
 def broadcastTo (a b : List Nat) : Option (List Nat) :=
   if a.length ≤ b.length ∧ broadcastShape a b = some b then some b else none
 
+/-- the second component of `index::shape_broadcast_to`: axis `k` of the result is "free" when the source
+    has no such axis or its extent differs from the target's (then it is 1) -/
+def broadcastFreeAxes (a b : List Nat) : List Nat :=
+  let off := b.length - a.length
+  (List.range b.length).map (fun k => if k < off then 1 else if a.getD (k - off) 0 = b.getD k 0 then 0 else 1)
+
 /-- `np.tile(a, reps).shape` -/
 def tile (s reps : List Nat) : List Nat :=
   let n := max s.length reps.length
